@@ -478,6 +478,13 @@ package jmespath
 //@   assigns \nothing
 //@   fresh
 
+//@ func MustCompile
+//@   props C05,C17
+//@   assigns \nothing
+//@   fresh
+//@   panics when {C17} [only-when-compile-fails] !isNil(\ret(Compile, 1)) && \arg(Compile, 0) == expression
+//@   ensures {C17} [returns-what-compile-returns-for-the-same-expression] isNil(\ret(Compile, 1)) && result == \ret(Compile, 0) && \arg(Compile, 0) == expression && result != nil
+
 // ---------------------------------------------------------------------------
 // interpreter.go — Execute on JSON data (C05 C11 C16 C06 C12 C13; functional clauses are added per node type)
 
